@@ -7,6 +7,7 @@ import random
 import common as C
 import hist
 import progs as P
+import c02_crash as X
 
 COQ_FILES = ("L3_Sig/Program.v", "L3_Sig/Sig.v", "L4_Eval/DdsEval.v", "L4_Eval/RunEval.v", "L3_Sig/SigProofs.v", "Properties/C02.v")
 EXTRACTED = ("ConstHash", "ConstSig")
@@ -214,8 +215,67 @@ def run_raw(rep):
         shutil.rmtree(base, ignore_errors=True)
 
 
+def interrupted_histories(rep, tier, seed):
+    """What happened to the store before, as a dimension: an evaluation is interrupted (process killed at a file-system
+    operation, the store raising, a user function raising), then the unchanged pipeline is evaluated repeatedly: c02_crash.py."""
+    import time
+    t0 = time.time()
+    quick = tier == "quick"
+    rng = random.Random(seed)
+    shapes = X.fixed_shapes(full=not quick) + X.random_shapes(seed, 1 if quick else 5)
+    dist = {"shapes": len(shapes), "histories_by_interruption": {}, "interrupted_by_class": {}, "evaluations_after_an_interruption": 0}
+    try:
+        with cf.ThreadPoolExecutor(max_workers=C.NPROC) as ex:
+            plains = list(ex.map(X.plain_reference, shapes))
+            uns = list(ex.map(lambda sh: X.safe(X.uncrashed, sh), shapes))
+        jobs = []
+        for n_sh, (sh, plain, un) in enumerate(zip(shapes, plains, uns)):
+            if "harness_error" in un:
+                rep.violation("harness-error:c02-interrupted", f"{sh['name']}: {un['harness_error']}", {"shape": sh}, no_input=True)
+                continue
+            if un["out"] != plain[0]:
+                rep.violation("interrupted:uncrashed-evaluation-differs-from-plain-execution", f"pipeline {sh['name']}: an evaluation from the starting "
+                              f"state returns {un['out'][:100]}, plain execution {plain[0][:100]}", {"shape": sh, "plain": plain})
+                continue
+            faults = X.fault_points(un, reads=False, excs=("Exception",) if quick else ("Exception", "KeyboardInterrupt"))
+            dist["interruption_points"] = dist.get("interruption_points", 0) + len(faults)
+            if quick:
+                # a seeded sample: one point of every class of interruption (kind x operation x object of the store), every
+                # other class for a given pipeline (each class is met with about half of the pipelines)
+                faults = X.sample_by_class(un, faults, rng)[n_sh % 2::2]
+            elif sh["name"].startswith("generated"):
+                faults = X.sample_by_class(un, faults, rng, per_class=2)
+            jobs += [(sh, f, un, plain) for f in faults]
+        jobs = [j for _, j in sorted(enumerate(jobs), key=lambda x: (x[0] % 7, x[0]))]      # (interleaved: a few process servers per pipeline)
+        with cf.ThreadPoolExecutor(max_workers=C.NPROC) as ex:
+            results = list(ex.map(X.safe_history, jobs))
+    finally:
+        X.close_servers()
+    for (sh, fault, un, plain), r in zip(jobs, results):
+        rep.case(json.dumps(["interrupted", sh["name"], fault]), nontrivial=bool(r["interrupted"] and sh["kept"]))
+        k = fault["kind"]
+        dist["histories_by_interruption"][k] = dist["histories_by_interruption"].get(k, 0) + 1
+        if r.get("harness_error"):
+            rep.violation("harness-error:c02-interrupted", f"{X.describe(sh, fault, r)}: history could not be run: {r['harness_error']}",
+                          {"shape": sh, "fault": fault}, no_input=True)
+            continue
+        if r["interrupted"]:
+            oc = X.op_class(fault, r)
+            dist["interrupted_by_class"][oc] = dist["interrupted_by_class"].get(oc, 0) + 1
+        dist["evaluations_after_an_interruption"] += r["evaluations"]
+        for kind, where, detail in r["problems"]:
+            rep.violation(f"{'interrupted:read-' if kind.startswith('failed-operation') else 'recomputed:interrupted:'}{kind}:{X.key_class(fault, r)}", f"{X.describe(sh, fault, r)}; then the unchanged pipeline is "
+                          f"evaluated again: {where}: {kind} -> {detail}",
+                          {"interrupted_history": {"shape": sh, "fault": fault}, "problem": kind, "where": where, "detail": detail,
+                           "operation": r.get("operation"), "uncrashed": {k: un[k] for k in ("out", "log", "puts", "sigs")}, "plain": plain})
+    dist["wall_seconds"] = round(time.time() - t0, 1)
+    rep.sample({"interrupted_history": {"shape": shapes[2]["name"], "fault": {"kind": "kill", "at": 27, "half": False}}})
+    return dist
+
+
 def run(rep, tier, seed, proof_ok):
     run_raw(rep)
+    dist_int = interrupted_histories(rep, tier, seed)
     n_prog = 6 if tier == "quick" and proof_ok else 60
     n_edits = 2 if tier == "quick" else 8
     rep.rule = (f"{n_prog} random pipelines; for each: unchanged re-evaluation, fresh process, entry-style switch (data functions), and "
@@ -224,7 +284,21 @@ def run(rep, tier, seed, proof_ok):
                 "revert; expectation: no body that runs only through keep / data function executes and no signature changes for "
                 "outside-cone edits, reverts, restarts and style switches; zero-argument data functions that cannot reach the edit keep "
                 "signature and are served; execution logs and signature maps also compared with the Coq model; distinct = distinct "
-                "(program, edit); non-trivial = program has at least one kept-only function")
+                "(program, edit); non-trivial = program has at least one kept-only function.  Further dimension, what happened to the "
+                "store before (c02_crash.py): histories in which an evaluation is INTERRUPTED and the unchanged pipeline is then "
+                "evaluated again and again; pipelines {kept root + nested keep with argument + data function, data function calling a "
+                f"data function + keep of a run-time value" + ("" if tier == "quick" else ", the first one entered through dds.eval") +
+                f", {1 if tier == 'quick' else 5} generated pipeline(s)}} x {{new store, store of the previous code version (the "
+                "interrupted evaluation is the one after the edit)} x interruption {process killed before a file-system operation "
+                "(every point after a state-changing one) / in the middle of a write; a writing file-system operation raises OSError "
+                "(the store raises, the process survives); the k-th function body raises" + ("" if tier == "quick" else
+                " Exception / KeyboardInterrupt; also reading operations raise") + "} (quick: seeded sample with one point per class "
+                "kind x operation x store object, every other class per pipeline; thorough: all points, two per class for the generated pipelines); then the same process (if it "
+                "survived) evaluates twice more, a fresh process twice, another fresh process once + calls every data function "
+                "directly + loads every path; expectation: the first evaluation completing after the interruption returns the value "
+                "of plain execution and executes only kept bodies that the uncrashed evaluation from the same starting state "
+                "executes and whose result the store had not acknowledged before the interruption; every later evaluation / direct "
+                "call executes NO kept body, returns the plain value and commits the signatures of the uncrashed run")
     plans = [plan_program(seed * 1000 + i, n_edits) for i in range(n_prog)] + load_pipelines()
     flat = [h[3] for pl in plans for h in pl["histories"]]
     with cf.ThreadPoolExecutor(max_workers=C.NPROC) as ex:
@@ -250,10 +324,12 @@ def run(rep, tier, seed, proof_ok):
         for d in res["diffs"]:
             rep.violation("model-mismatch:" + d["diffs"][0][0], f"implementation and model disagree at {d['where']}: {json.dumps(d['diffs'])[:300]}", d)
         rep.sample(res["sample"], cap=3)
-    rep.extra["input_distribution"] = {"programs": len(results), "edits_by_kind": kinds}
+    rep.extra["input_distribution"] = {"programs": len(results), "edits_by_kind": kinds, "interrupted_evaluations": dist_int}
 
 
 def replay(path):
     r = json.load(open(path))["replay"]
+    if "interrupted_history" in r:
+        return X.replay(r)
     import c01
     return c01.replay(path)
